@@ -19,6 +19,8 @@ func init() {
 
 func vfH_C16_stale() {
 	dir := vfFSDir()
+	vfC16Valued = vfChoice("valued", 2) == 1
+	defer func() { vfC16Valued = false }()
 	env := vfC16History(dir, vfChoice("third", 2) == 1)
 	mark := vfFSMark()
 	env.slock.aof.rewriteAofFiles()
@@ -34,6 +36,8 @@ func vfH_C16_stale() {
 // and died before it removed its inputs.
 func vfH_C16_staletmp() {
 	dir := vfFSDir()
+	vfC16Valued = vfChoice("valued", 2) == 1
+	defer func() { vfC16Valued = false }()
 	env := vfC16History(dir, vfChoice("third", 2) == 1)
 	names, err := env.slock.aof.findRewriteAofFiles()
 	vfAssert(err == nil && len(names) > 0, "C16: harness: nothing to compact")
@@ -81,13 +85,39 @@ func vfC16NextProcess(dir string) {
 	// one more persisted hold, then rotation and the second compaction
 	c := env2.newCmd(protocol.COMMAND_LOCK, vfKey(3), vfLockId(9))
 	c.Expried, c.ExpriedFlag, c.Count = 0xffff, 0x4100, 5
+	if vfC16Valued {
+		// with values in play the new hold carries one and STAYS: the second compaction keeps a value record the
+		// interrupted one never saw (what it recovers is then compared with the live state)
+		c.Flag = protocol.LOCK_FLAG_CONTAINS_DATA
+		c.Data = protocol.NewLockCommandDataSetString("zz")
+	}
 	env2.lock(0, c)
-	u := env2.newCmd(protocol.COMMAND_UNLOCK, vfKey(3), vfLockId(9))
-	env2.unlock(0, u)
+	if !vfC16Valued {
+		u := env2.newCmd(protocol.COMMAND_UNLOCK, vfKey(3), vfLockId(9))
+		env2.unlock(0, u)
+	}
+	vfDrainAof(env2.db)
 	vfRotate(env2)
 	aof.rewriteAofFiles()
 	after, ok2 := vfRecover(dir)
 	vfAssert(ok2, "C16: the directory left by a compaction that followed an interrupted one cannot be recovered")
+	if vfC16Valued {
+		var live vfRecovered
+		for k := uint8(1); k <= 4; k++ {
+			m := env2.manager(vfKey(k))
+			for _, l := range vfHolders(m) {
+				if live.n < 6 {
+					live.keys[live.n], live.ids[live.n], live.depth[live.n] = l.command.LockKey, l.command.LockId, l.locked
+					live.vals[live.n] = string(m.GetLockData())
+					live.n++
+				}
+			}
+		}
+		vfReach("valued")
+		vfAssert(vfSameRecovered(live, after), "C16: after a compaction that followed an interrupted one, a restart does not recover the live holds with their values")
+		vfReach("end")
+		return
+	}
 	if stale {
 		vfReach("stale-tmp")
 		vfAssert(vfSameRecovered(mid, after), "C16: a compaction that found a left-over rewrite.aof.tmp changed what a restart recovers")
